@@ -215,6 +215,14 @@ def parse_arch_context(path):
     save = norm(c_function_body(src, "mcount_save_arch_context"))
     rest = norm(c_function_body(src, "mcount_restore_arch_context"))
     init = "if (mcount_arch_have_avx < 0) mcount_arch_have_avx = mcount_arch_check_avx(); "
+    # optionally the MXCSR register (rounding mode, exception flags and masks) is saved first and restored last
+    st_csr = 'asm volatile("stmxcsr %0\\n" : "=m"(ctx->mxcsr)); '
+    ld_csr = ' asm volatile("ldmxcsr %0\\n" ::"m"(ctx->mxcsr));'
+    mxcsr = False
+    if save.startswith(init + st_csr) and rest.endswith(ld_csr):
+        mxcsr = True
+        save = init + save[len(init + st_csr):]
+        rest = rest[:-len(ld_csr)]
     two_save = init + "if (mcount_arch_have_avx) mcount_save_arch_context_avx(ctx); else mcount_save_arch_context_sse(ctx);"
     two_rest = "if (mcount_arch_have_avx > 0) mcount_restore_arch_context_avx(ctx); else mcount_restore_arch_context_sse(ctx);"
     three_save = init + ("if (mcount_arch_have_avx == 2) mcount_save_arch_context_avx512(ctx); "
@@ -229,7 +237,7 @@ def parse_arch_context(path):
         tiers.append(("avx512", "avx"))
     else:
         raise Unknown("%s: mcount_save/restore_arch_context are not the expected SSE/AVX[/AVX-512] dispatchers:\n  %s\n  %s" % (path, save, rest))
-    res = {}
+    res = {"mxcsr": mxcsr}
     for name, fn in tiers:
         res["save_" + name] = parse_moves(src, "mcount_save_arch_context_" + fn)
         res["restore_" + name] = parse_moves(src, "mcount_restore_arch_context_" + fn)
@@ -316,6 +324,8 @@ def main():
     v.append("Definition arch_ctx_slot_bytes : Z := %d." % sb)
     v.append("Definition arch_ctx_slots : nat := %d." % ns)
     v.append("(* the pairs used when only xmm / the ymm state / the zmm state is enabled (mcount_arch_check_avx() = 0 / 1 / 2) *)")
+    v.append("(* does the pair also save (first) and restore (last) the MXCSR register? *)")
+    v.append("Definition arch_ctx_mxcsr : bool := %s." % ("true" if ctx["mxcsr"] else "false"))
     for k in ("save_sse", "restore_sse", "save_avx", "restore_avx", "save_avx512", "restore_avx512"):
         v.append("Definition arch_ctx_%s : list xop :=\n  [ %s ]." % (k, ";\n    ".join(ctx[k])))
     v.append("")
